@@ -18,6 +18,7 @@ import (
 	"math/big"
 	"strconv"
 	"strings"
+	"unicode/utf8"
 
 	"filippo.io/edwards25519"
 	"github.com/MixinNetwork/mixin/common"
@@ -109,9 +110,110 @@ func genB58String(r *Rand) string {
 var foreignBytes = [][]byte{{'0'}, {'O'}, {'I'}, {'l'}, {' '}, {0}, {0x7f}, {0x80}, {0xff}, {0xc3, 0x80}, {0xc2, 0xb1},
 	{0xe2, 0x82, 0xac}, {'+'}, {'/'}, {'='}, {'\n'}, {0xc0}, {'_'}}
 
+// wideRune encodes a rune above U+00FF whose low byte is c, using w bytes of UTF-8 (w = 2, 3, 4).
+func wideRune(r *Rand, c byte, w int) []byte {
+	var hi rune
+	switch w {
+	case 2:
+		hi = rune(r.Range(1, 7)) << 8
+	case 3:
+		hi = rune(Pick(r, []int{0x08, 0x10, 0x20, 0x4e, 0xac, 0xff})) << 8
+	default:
+		hi = rune(Pick(r, []int{0x100, 0x1f6, 0x200, 0x10ff})) << 8
+	}
+	return utf8.AppendRune(nil, hi|rune(c))
+}
+
+// widen replaces one character by a multi-byte rune with the same low byte. When aligned is
+// set and the string (after the first off bytes) has a ten-byte chunk, not the first one,
+// that starts with w-1 zero digits, those digits are dropped so that all later characters keep
+// their byte offsets: a decoder that counts chunk sizes in bytes but digits in runes, and that
+// looks only at the low byte of a rune, then reads the same number.
+func widen(r *Rand, s string, off int, zero byte, aligned bool) (string, bool) {
+	if len(s) <= off {
+		return s, false
+	}
+	body := s[off:]
+	w := Pick(r, []int{2, 2, 2, 3, 4})
+	if aligned {
+		type cand struct{ k, w int }
+		var cs []cand
+		for k := 1; 10*k < len(body); k++ {
+			n := min(10, len(body)-10*k)
+			for ww := 2; ww <= 4 && ww <= n; ww++ {
+				if strings.Count(body[10*k:10*k+ww-1], string(zero)) == ww-1 {
+					cs = append(cs, cand{k, ww})
+				}
+			}
+		}
+		if len(cs) == 0 {
+			return s, false
+		}
+		c := Pick(r, cs)
+		n := min(10, len(body)-10*c.k)
+		chunk := body[10*c.k : 10*c.k+n]
+		j := r.Range(c.w-1, n-1)
+		out := s[:off] + body[:10*c.k] + chunk[c.w-1:j] + string(wideRune(r, chunk[j], c.w)) + chunk[j+1:] + body[10*c.k+n:]
+		return out, true
+	}
+	j := r.Intn(len(body))
+	return s[:off] + body[:j] + string(wideRune(r, body[j], w)) + body[j+1:], true
+}
+
+// alignedWideAddress searches printed addresses of fresh keys for one that admits an aligned
+// widening (about one address in seven has a chunk starting with the zero digit).
+func alignedWideAddress(r *Rand) (string, bool) {
+	for try := 0; try < 80; try++ {
+		sp, vw := crypto.NewKeyFromSeed(r.Bytes(64)).Public(), crypto.NewKeyFromSeed(r.Bytes(64)).Public()
+		s := addressWithChecksum(sp[:], vw[:], true, r)
+		if out, ok := widen(r, s, 3, '1', true); ok {
+			return out, true
+		}
+	}
+	return "", false
+}
+
+// addressPayloadVariant re-encodes a payload derived from the 68 bytes of a valid address:
+// extended, shortened, shifted, with the checksum recomputed at [64:68], at the end, or not at all.
+func addressPayloadVariant(r *Rand, sp, vw []byte) string {
+	keys := append(append([]byte{}, sp...), vw...)
+	sum := crypto.Sha256Hash(append([]byte("XIN"), keys...))
+	data := append(append([]byte{}, keys...), sum[:4]...)
+	extra := r.Bytes(r.Range(1, 9))
+	if r.Chance(1, 3) {
+		extra = make([]byte, len(extra))
+	}
+	switch r.Intn(8) {
+	case 0, 1: // valid 68 bytes followed by extra bytes
+		data = append(data, extra...)
+	case 2: // extra bytes in front
+		data = append(extra, data...)
+	case 3: // extra bytes between keys and checksum
+		data = append(append(append([]byte{}, keys...), extra...), sum[:4]...)
+	case 4: // extra bytes in front, checksum recomputed over the new first 64 bytes and put at [64:68]
+		data = append(extra, data...)
+		s2 := crypto.Sha256Hash(append([]byte("XIN"), data[:64]...))
+		copy(data[64:68], s2[:4])
+	case 5: // longer payload with the checksum over everything before the last four bytes
+		body := append(append([]byte{}, keys...), extra...)
+		s2 := crypto.Sha256Hash(append([]byte("XIN"), body...))
+		data = append(body, s2[:4]...)
+	case 6: // shortened
+		data = data[:Pick(r, []int{67, 66, 65, 64, 36, 4, 1})]
+	default: // shortened keys with a checksum that fits them
+		body := keys[:Pick(r, []int{63, 62, 60, 33, 32})]
+		s2 := crypto.Sha256Hash(append([]byte("XIN"), body...))
+		data = append(append([]byte{}, body...), s2[:4]...)
+	}
+	return "XIN" + base58.Encode(data)
+}
+
 func mutateString(r *Rand, s string, alphabet string) string {
 	b := []byte(s)
-	switch r.Intn(7) {
+	switch r.Intn(8) {
+	case 7: // a multi-byte rune whose low byte is the replaced character
+		out, _ := widen(r, s, 0, alphabet[0], false)
+		return out
 	case 0: // replace by another alphabet character
 		if len(b) > 0 {
 			b[r.Intn(len(b))] = alphabet[r.Intn(len(alphabet))]
@@ -196,13 +298,42 @@ func init() {
 			"printed from valid and invalid keys, parsed back after single-character mutations; hex forms of key/hash/" +
 			"signature/cosi with case, length and character mutations. non-trivial = the real code returned a value " +
 			"(ok, not reject/panic); distinct = distinct op line",
-		Corpus: [][]string{allBytes,
+		Corpus: [][]string{allBytes, c32FixedCases(),
 			{"b58enc -", "b58dec -", "aparse " + Hex([]byte("XIN")) + " - - -", "aparse - - - -",
 				"hexparse key -", "hexparse cosi -", "hexprint cosi " + Hex(make([]byte, 64)) + " 0",
 				"hexprint cosi " + Hex(bytes.Repeat([]byte{0xab}, 64)) + " 18446744073709551615"}},
 		Gen:  genKeys,
 		Exec: execKeys,
 	})
+}
+
+// c32FixedCases: always-run cases built from a fixed seed: wide runes (aligned and not) in
+// base58 strings and addresses, over-long / shifted / shortened address payloads.
+func c32FixedCases() []string {
+	r := NewRand(0xc32)
+	var out []string
+	for i := 0; i < 6; i++ {
+		if s, ok := alignedWideAddress(r); ok {
+			out = append(out, "aparse "+Hex([]byte(s)))
+		}
+		sp, vw := crypto.NewKeyFromSeed(r.Bytes(64)).Public(), crypto.NewKeyFromSeed(r.Bytes(64)).Public()
+		for j := 0; j < 8; j++ {
+			out = append(out, "aparse "+Hex([]byte(addressPayloadVariant(r, sp[:], vw[:]))))
+		}
+		s, _ := widen(r, addressWithChecksum(sp[:], vw[:], true, r), 3, '1', false)
+		out = append(out, "aparse "+Hex([]byte(s)))
+	}
+	for _, c := range []byte("1Az9") {
+		for w := 2; w <= 4; w++ {
+			out = append(out, "b58dec "+Hex(append(append([]byte("2"), wideRune(r, c, w)...), '3')))
+			out = append(out, "b58dec "+Hex(append(append([]byte("zzzzzzzzzz1"), wideRune(r, c, w)...), "zzzzzzzz"...)))
+		}
+	}
+	// a rune cut by the ten-byte chunk boundary, NUL, DEL, lone continuation and lead bytes
+	for _, t := range []string{"zzzzzzzzz\u0141z", "zzzzzzzz\u20bfz", "2\x003", "2\x7f3", "2\x803", "2\xc33", "\xc4", "1\xc5\x81", "\u0131", "\u00b1"} {
+		out = append(out, "b58dec "+Hex([]byte(t)), "aparse "+Hex([]byte("XIN"+t)), "hexparse key "+Hex([]byte(t)))
+	}
+	return out
 }
 
 func genKeys(r *Rand, i int, tier string) []string {
@@ -234,6 +365,12 @@ func genKeys(r *Rand, i int, tier string) []string {
 		s := genB58String(r)
 		if r.Chance(1, 5) {
 			s = mutateString(r, s, b58Alphabet)
+		} else if r.Chance(1, 6) {
+			if out, ok := widen(r, s, 0, '1', true); ok {
+				s = out
+			} else {
+				s, _ = widen(r, s, 0, '1', false)
+			}
 		}
 		return []string{"b58dec " + Hex([]byte(s))}
 	case 5:
@@ -245,9 +382,19 @@ func genKeys(r *Rand, i int, tier string) []string {
 			vw = sp
 		}
 		s := addressWithChecksum(sp[:], vw[:], !r.Chance(1, 10), r)
-		switch r.Intn(8) {
+		switch r.Intn(12) {
 		case 0, 1, 2, 3:
 			s = mutateString(r, s, b58Alphabet)
+		case 8, 9: // payloads that extend, shift or shorten the 68 bytes of a valid address
+			s = addressPayloadVariant(r, sp[:], vw[:])
+		case 10: // a wide rune in place of a digit, byte offsets of the other digits kept
+			if out, ok := alignedWideAddress(r); ok {
+				s = out
+			} else {
+				s, _ = widen(r, s, 3, '1', false)
+			}
+		case 11:
+			s, _ = widen(r, s, Pick(r, []int{0, 3}), '1', false)
 		case 4: // right checksum, wrong payload length
 			n := Pick(r, []int{63, 65, 32, 0})
 			data := r.Bytes(n)
@@ -556,6 +703,18 @@ func execGhost(t []string, line string) Result {
 		}
 		return "?"
 	}
+	// A sender derives the keys of several outputs with one mask, a recipient scans several
+	// indexes with one view key: each derivation must depend on *its* index only. Derive for a
+	// neighbouring index first, on one side only, so that any state kept between calls shows.
+	Catch(func() string {
+		if index%2 == 0 {
+			crypto.DeriveGhostPublicKey(&r, &A, &B, index+1)
+		} else {
+			crypto.DeriveGhostPrivateKey(&R, &a, &b, index-1)
+			crypto.ViewGhostOutputKey(&B, &a, &R, index-1)
+		}
+		return ""
+	})
 	var P, p, V *crypto.Key
 	pubS, _, _ := Catch(func() string {
 		P = crypto.DeriveGhostPublicKey(&r, &A, &B, index)
